@@ -30,6 +30,8 @@ class C07(EvalFamProp):
             D(d(M({'q': S(6006, kw={'safe': False}), 'p': M({'x': Stext('q', 'xref')}), 'c': call('rec.f', {'a': Stext('p', 'xref')})}))),   # D24 laundering
             D(d(M({'a': M({'b': M({'c': call('rec.f', {})}, kw={'safe': True})}, kw={'safe': False})}))),                                   # D30 explicit safe=True below !unsafe
             D(d(M({'a': Stext('b.c', 'xref'), 'b': M({'c': M({'x': S(6007, kw={'safe': False})})}), 'c': call('rec.f', {'a': Stext('b', 'xref')})}))),
+            D(d(M({'c': call('rec.f', {'a': S(1)})})), d(M({'c': S('rec.g', kw={'safe': False})}))),                                   # S5-C07: re-targeted by an unsafe string
+            D(d(M({'c': call('rec.f', {'a': S(1)})})), d(M({'c': S('rec.g')}), safe=False), d(M({'k': S(2)}))),
             D(d(M({'steps': Q([call('rec.f', {})], tag='extend', kw={'safe': False})}))),                                           # S4-C07: an unsafe operator that becomes a plain list
             D(d(M({'k': S(1)})), d(M({'c': M({'h': Q([Stext('T(k)', 'eval')], tag='extend', kw={'safe': False})})})), d(M({'c': M({'h': Q([S(3)], tag='append')})}))),
             # D40: the plain list an unsafe !extend / !append leaves behind (no destination) reached a call as `[]`
